@@ -30,6 +30,8 @@ import (
 	"testing"
 
 	"github.com/hashicorp/raft"
+	"github.com/rqlite/rqlite/v10/internal/verif/vcrash"
+	"github.com/rqlite/rqlite/v10/internal/verif/vos"
 	"github.com/rqlite/rqlite/v10/internal/verif/vsnap"
 	"github.com/rqlite/rqlite/v10/internal/verif/vstat"
 	"github.com/rqlite/rqlite/v10/snapshot"
@@ -567,5 +569,199 @@ func TestVerif_C09_Catalog(t *testing.T) {
 			rec.Label("NT:reap-between-incrementals")
 		}
 		rec.Sample(strings.Join(m.trace, " "))
+	})
+}
+
+// Crash points of a sink's life (Create, writes, Close): the store directory
+// is saved at every filesystem event (vos shim + vcrash.Recorder, plus torn
+// variants of the file being written); every saved state is opened with
+// NewStore and must list either the catalog as it was or the catalog plus the
+// new snapshot, never anything else; FULL_NEEDED may only be gone when the new
+// snapshot is listed; every listed snapshot restores to its recorded content.
+func TestVerif_C09_CloseCrash(t *testing.T) {
+	vsnap.Quiet()
+	rec := vstat.New(t, "C09", "closecrash",
+		"rapid: prefix shape of 0..3 snapshots, optional SetDueNext(Full), then one sink (full, installed db+1..2 WALs, or incremental 1..2 WALs when allowed) from Create through all writes to Close with every mutating os call of snapshot, snapshot/sidecar and internal/fsutil intercepted; one case = one saved crash state recovered with NewStore; non-trivial = state taken inside Close (after the last write); distinct by shape+sink+event label")
+	rapid.Check(t, func(rt *rapid.T) {
+		root, err := os.MkdirTemp("", "c09c")
+		if err != nil {
+			rt.Skip()
+		}
+		defer os.RemoveAll(root)
+		b, err := vsnap.New(filepath.Join(root, "live"))
+		if err != nil {
+			rt.Fatalf("harness: %v", err)
+		}
+		defer b.Close()
+		snapshot.VerifG4QuietStore(b.Store)
+		var sh vsnap.Shape
+		if rapid.IntRange(0, 3).Draw(rt, "empty") == 0 {
+			sh = vsnap.GenShape(rt, vsnap.Opt{MaxSteps: 1})
+			sh.Steps = nil
+		} else {
+			sh = vsnap.GenShape(rt, vsnap.Opt{MaxSteps: 3, MaxWALs: 2})
+		}
+		if err := b.Apply(sh); err != nil { // also creates the schema
+			rt.Fatalf("harness: building %s: %v", sh, err)
+		}
+		before := append([]vsnap.Snap(nil), b.Snaps...)
+		flag := rapid.IntRange(0, 2).Draw(rt, "set-full-needed") == 0
+		if flag {
+			if err := b.Store.SetDueNext(snapshot.Full); err != nil {
+				rt.Fatalf("harness: %v", err)
+			}
+		}
+		kinds := []string{"full", "installed"}
+		if len(before) > 0 && !flag {
+			kinds = append(kinds, "inc", "inc")
+		}
+		kind := rapid.SampledFrom(kinds).Draw(rt, "sink")
+		seq := 1000
+		batch := func() []string { seq++; return vsnap.GenBatch(rt, seq, vsnap.Opt{}) }
+		var str io.ReadCloser
+		nwals := 0
+		switch kind {
+		case "full":
+			b.Exec(batch()...)
+			str, err = b.FullStream()
+		case "installed":
+			rounds := [][]string{batch()}
+			if rapid.Bool().Draw(rt, "two") {
+				rounds = append(rounds, batch())
+			}
+			str, nwals, err = b.InstalledStream(rounds)
+		default:
+			for i, n := 0, rapid.IntRange(1, 2).Draw(rt, "nwal"); i < n; i++ {
+				b.Exec(batch()...)
+				if err = b.StageWAL(); err != nil {
+					break
+				}
+			}
+			if err == nil {
+				nwals = b.Staged()
+				str, err = b.IncrementalStream()
+			}
+		}
+		if err != nil {
+			rt.Fatalf("harness: preparing %s stream: %v", kind, err)
+		}
+		data, _ := io.ReadAll(str)
+		str.Close()
+		newDump, err := b.Dump()
+		if err != nil {
+			rt.Fatalf("harness: %v", err)
+		}
+		cuts, _ := g4Cuts(rt, len(data), len(data))
+		index := uint64(10 * (len(before) + 5))
+
+		r := &vcrash.Recorder{Root: b.StoreDir, SaveDir: filepath.Join(root, "states"), Torn: true}
+		var newID string
+		var cerr error
+		lastWriteEv := 0
+		r.Run(func() {
+			sink, err := b.CreateSink(index, 1)
+			if err != nil {
+				cerr = err
+				return
+			}
+			snapshot.VerifG4SinkNoFatal(sink)
+			newID = sink.ID()
+			if _, err := g4Write(sink, data, cuts); err != nil {
+				sink.Cancel()
+				cerr = err
+				return
+			}
+			lastWriteEv = vos.Events()
+			cerr = sink.Close()
+		})
+		if r.Err != nil {
+			rt.Fatalf("harness: recorder: %v", r.Err)
+		}
+		if cerr != nil {
+			msg := fmt.Sprintf("uninterrupted %s sink on %s failed: %v", kind, sh, cerr)
+			if rec.KnownHit("C09/valid-stream-close-error", msg) {
+				return
+			}
+			rt.Fatalf("%s", rec.Violation("C09/valid-stream-close-error", "%s", msg))
+		}
+		fail := func(st vcrash.State, sig, format string, args ...any) bool {
+			msg := fmt.Sprintf("crash state %s of a %s sink (shape %s, full-needed=%v): ", st.Label, kind, sh, flag) + fmt.Sprintf(format, args...) + " | events: " + r.Trace()
+			if rec.KnownHit(sig, msg) {
+				return false
+			}
+			rt.Fatalf("%s", rec.Violation(sig, "%s", msg))
+			return true
+		}
+		for _, st := range r.States {
+			inClose := st.Ev.Seq > lastWriteEv
+			rec.Case(inClose, fmt.Sprintf("%s|%s|%v|%s", sh, kind, flag, st.Label))
+			rec.Label("sink:" + kind)
+			rec.Label("state:" + st.Kind)
+			s2, err := snapshot.NewStore(st.Dir)
+			if err != nil {
+				fail(st, "C09/crash-state-does-not-open", "NewStore failed: %v", err)
+				continue
+			}
+			s2.SetReapThreshold(1 << 30)
+			snapshot.VerifG4QuietStore(s2)
+			func() {
+				defer s2.Close()
+				metas, err := s2.ListAll()
+				if err != nil {
+					fail(st, "C09/crash-state-catalog-broken", "ListAll failed: %v", err)
+					return
+				}
+				hasNew := len(metas) == len(before)+1 && metas[0].ID == newID
+				if !hasNew && len(metas) != len(before) {
+					fail(st, "C09/crash-state-catalog-wrong", "lists %d snapshots, expected %d or %d", len(metas), len(before), len(before)+1)
+					return
+				}
+				off := 0
+				if hasNew {
+					off = 1
+					rec.Label("new-snapshot-listed")
+				}
+				for i := range before {
+					if metas[off+i].ID != before[len(before)-1-i].ID {
+						fail(st, "C09/crash-state-catalog-wrong", "position %d lists %s, expected %s", off+i, metas[off+i].ID, before[len(before)-1-i].ID)
+						return
+					}
+				}
+				_, serr := os.Stat(filepath.Join(st.Dir, "FULL_NEEDED"))
+				present := serr == nil
+				if flag && !present && !hasNew {
+					fail(st, "C09/full-needed-cleared-without-install", "FULL_NEEDED is gone but the new snapshot is not listed")
+					return
+				}
+				if !flag && present {
+					fail(st, "C09/full-needed-set-by-crash", "FULL_NEEDED appeared")
+					return
+				}
+				ents, _ := os.ReadDir(st.Dir)
+				for _, e := range ents {
+					if e.IsDir() && strings.HasSuffix(e.Name(), ".tmp") {
+						fail(st, "C09/tmp-dir-survives-restart", "temporary directory %s still present after NewStore", e.Name())
+						return
+					}
+				}
+				if hasNew {
+					d, err := vsnap.RestoreDump(s2, newID)
+					if err != nil || d != newDump {
+						fail(st, "C09/listed-snapshot-wrong-content", "new snapshot listed but restore err=%v equal=%v (nwals=%d)", err, d == newDump, nwals)
+						return
+					}
+				}
+				if len(before) > 0 {
+					last := before[len(before)-1]
+					d, err := vsnap.RestoreDump(s2, last.ID)
+					if err != nil || d != last.Dump {
+						fail(st, "C09/listed-snapshot-wrong-content", "previous newest snapshot %s: restore err=%v equal=%v", last.ID, err, d == last.Dump)
+						return
+					}
+				}
+			}()
+		}
+		rec.Sample(fmt.Sprintf("%s + %s sink, full-needed=%v: %d events, %d states (%d duplicates)", sh, kind, flag, len(r.Events), len(r.States), r.Dups))
+		r.Cleanup()
 	})
 }
